@@ -1,4 +1,5 @@
 import Driver.Util
+import Driver.Widths
 import Model.Borders
 import Model.CellAttr
 import Model.EncodeMulti
@@ -51,8 +52,47 @@ def opSectionBorders (j : Json) : R Json := do
     let sd := Model.EncodeMulti.sectionDoc d n i default
     Json.arr #[Json.str sd.page.borderFirst, Json.str sd.page.borderLast]) (List.range n)
 
+/-- the NUMBER the encoder model emits for one numeric body attribute value: `resolveText` (`\fsN`, `\fiN` `\liN`
+`\riN`, `\sbN` `\saN`, `\slN`), `resolveBorder` (`\brdrwN`), `gaphOf` (`\trgaphN`) of `Model.Encode` — the functions the
+page cells of `C09enc_binding` are built with.  The value travels as an int or as the exact rational of the float.
+`near`: the twip conversion of the value sits within 2^-30 of a rounding boundary, `tie`: exactly on it. -/
+def opEmitNum (j : Json) : R Json := do
+  let attr ← strF j "attr"
+  let v : Model.Encode.Val ← match (← fld j "value") with
+    | .str s => do pure (Model.Encode.Val.float (← parseRat s))
+    | x => do pure (Model.Encode.Val.int (← asInt x))
+  let k : Model.Encode.ColorCtx := { used := [], rows := .ok [] }
+  let tv : Model.Encode.TextVals :=
+    { font := .int 1, size := .float 9, format := .null, color := .null, bg := .null, just := .str "l",
+      indFirst := .int 0, indLeft := .int 0, indRight := .int 0, space := .int 1, spBefore := .int 15,
+      spAfter := .int 15, convert := .bool true, hyph := .bool true }
+  let jInt (i : Int) : Json := Json.num (JsonNumber.fromInt i)
+  let text (tv : Model.Encode.TextVals) (f : Model.Emit.TextFmt → Json) : R Json :=
+    match Model.Encode.resolveText k tv with
+    | .ok (t, _) => pure (Json.mkObj [("n", f t), ("near", Json.bool false), ("tie", Json.bool false)])
+    | .error e => pure (Json.mkObj [("refused", Json.str e)])
+  match attr with
+  | "text_font" => text { tv with font := v } (fun t => jInt t.fontIdx)
+  | "text_font_size" => text { tv with size := v } (fun t => jInt t.halfPts)
+  | "text_indent_first" => text { tv with indFirst := v } (fun t => jInt t.fi)
+  | "text_indent_left" => text { tv with indLeft := v } (fun t => jInt t.li)
+  | "text_indent_right" => text { tv with indRight := v } (fun t => jInt t.ri)
+  | "text_space" => text { tv with space := v } (fun t => jOpt jInt t.sl)
+  | "text_space_before" => text { tv with spBefore := v } (fun t => jInt t.sb)
+  | "text_space_after" => text { tv with spAfter := v } (fun t => jInt t.sa)
+  | "border_width" =>
+    match Model.Encode.resolveBorder k (.str "single") v .null with
+    | .ok b => pure (Json.mkObj [("n", jInt b.width), ("near", Json.bool false), ("tie", Json.bool false)])
+    | .error e => pure (Json.mkObj [("refused", Json.str e)])
+  | "cell_height" =>
+    match v.toRat with
+    | .ok h => pure (Json.mkObj [("n", jInt (Model.Encode.gaphOf h)), ("twip", jInt (Model.Encode.twip h)),
+        ("near", Json.bool (Model.Encode.nearTwip h)), ("tie", Json.bool (Model.Widths.isTie (h * 1440)))])
+    | .error e => pure (Json.mkObj [("refused", Json.str e)])
+  | a => throw s!"emit_num: unknown attribute {a}"
+
 namespace Borders
 def ops : List (String × (Json → R Json)) :=
-  [("borders", opBorders), ("cell_attr", opCellAttr), ("section_borders", opSectionBorders)]
+  [("borders", opBorders), ("cell_attr", opCellAttr), ("section_borders", opSectionBorders), ("emit_num", opEmitNum)]
 end Borders
 end Driver
